@@ -38,7 +38,7 @@ CLAIMED = {
          "DESIGN.md §6 C04"),
  "C05": ("exploration",
          "metamorphic + model-based testing: rewrite families (comma-join permutations, CROSS JOIN+WHERE, INNER JOIN chains, derived-table wrapping, IN / EXISTS / JOIN DISTINCT, NOT EXISTS / LEFT JOIN IS NULL / NOT IN) each compared with a definitional nested-loop evaluation computed by the harness",
-         "Generated-input search: 250k families quick / 6M thorough over 2-3 tables with NULL and duplicate keys and empty sides, with and without an index on the inner key; every member must return the multiset of the ~60-line definitional model (NOT IN against its own 3VL definition).",
+         "Generated-input search: 150k families quick / 6M thorough over 2-3 tables with NULL and duplicate keys and empty sides, with and without an index on the inner key; every member must return the multiset of the ~60-line definitional model (NOT IN against its own 3VL definition).",
          "Join equality = SQL equality (NULL never matches). Members with a recorded defect are still executed and counted but do not stop the case.",
          "DESIGN.md §6 C05"),
  "C06": ("exploration",
